@@ -419,9 +419,14 @@ fn is_check_cords(board: &BoardState, color: PieceColor, square_cords: Point) ->
     }
 
     // Check from king
-    // By using the king location here we can just check if they are within one square of each other
-    (board.black_king_location.0 as i8 - board.white_king_location.0 as i8).abs() <= 1
-        && (board.black_king_location.1 as i8 - board.white_king_location.1 as i8).abs() <= 1
+    // By using the king location here we can just check if the attacking king is within one square
+    // of the square in question (which is not always the square our own king stands on, see castling)
+    let attacking_king_location = match color {
+        White => board.black_king_location,
+        Black => board.white_king_location,
+    };
+    (attacking_king_location.0 as i8 - square_cords.0 as i8).abs() <= 1
+        && (attacking_king_location.1 as i8 - square_cords.1 as i8).abs() <= 1
 }
 
 /*
